@@ -45,14 +45,18 @@ def cargo_env():
     return e
 
 
-def confirm(src, sid, prop):
+def confirm(src, sid, prop, flags="", rustflags=""):
     ensure_wt()
+    denv = cargo_env()
+    if rustflags:
+        denv["RUSTFLAGS"] = rustflags
+        denv["CARGO_TARGET_DIR"] = os.path.join(WT, "target-alt")
     patch = os.path.join(src, "patch.diff")
     demo = os.path.join(src, "demo.rs")
     res = {"id": sid, "property": prop, "source": "independent sub-agent given only the property text and a scratch worktree"}
     # 1. demo passes without the change
     shutil.copy(demo, os.path.join(WT, "tests/zz_demo.rs"))
-    rc, out = sh("cargo test --offline --test zz_demo 2>&1 | tail -15", cwd=WT, env=cargo_env(), timeout=1800)
+    rc, out = sh("cargo test --offline %s --test zz_demo 2>&1 | tail -15" % flags, cwd=WT, env=denv, timeout=1800)
     res["demo_passes_without_change"] = "test result: ok" in out and "FAILED" not in out
     # 2. apply; demo fails with the change
     rc, out = sh(["git", "apply", patch], cwd=WT)
@@ -60,7 +64,7 @@ def confirm(src, sid, prop):
         res["error"] = "patch does not apply: " + out[-300:]
         print(json.dumps(res, indent=1))
         return res
-    rc, out = sh("cargo test --offline --test zz_demo 2>&1 | tail -25", cwd=WT, env=cargo_env(), timeout=1800)
+    rc, out = sh("cargo test --offline %s --test zz_demo 2>&1 | tail -25" % flags, cwd=WT, env=denv, timeout=1800)
     res["demo_fails_with_change"] = ("FAILED" in out) or ("panicked" in out) or ("signal" in out) or ("error: test failed" in out)
     res["demo_output_tail"] = out[-600:]
     # 3. the existing suite, unedited, still passes with the change
@@ -83,7 +87,7 @@ def confirm(src, sid, prop):
         if os.path.exists(notes):
             shutil.copy(notes, os.path.join(d, "notes.md"))
             needs = open(notes).read()[:1500]
-        meta = {"id": sid, "breaks_property": prop, "needs_to_manifest": needs, "confirmed": {k: res[k] for k in ("demo_passes_without_change", "demo_fails_with_change", "suite_passes_with_change")}, "commands": ["cargo test --offline --test zz_demo (without / with patch)", "cargo test --workspace --no-fail-fast --offline (with patch)"], "source": res["source"], "detection": {}}
+        meta = {"id": sid, "breaks_property": prop, "needs_to_manifest": needs, "confirmed": {k: res[k] for k in ("demo_passes_without_change", "demo_fails_with_change", "suite_passes_with_change")}, "demo_flags": flags, "demo_rustflags": rustflags, "commands": ["cargo test --offline <demo_flags> --test zz_demo (without / with patch)", "cargo test --workspace --no-fail-fast --offline (with patch)"], "source": res["source"], "detection": {}}
         with open(os.path.join(d, "meta.json"), "w") as f:
             json.dump(meta, f, indent=1)
     print(json.dumps({k: v for k, v in res.items() if k != "demo_output_tail"}, indent=1))
@@ -122,7 +126,7 @@ def run(sid, checks, tier="quick"):
 
 if __name__ == "__main__":
     if sys.argv[1] == "confirm":
-        confirm(sys.argv[2], sys.argv[3], sys.argv[4])
+        confirm(sys.argv[2], sys.argv[3], sys.argv[4], sys.argv[5] if len(sys.argv) > 5 else "", sys.argv[6] if len(sys.argv) > 6 else "")
     elif sys.argv[1] == "run":
         run(sys.argv[2], sys.argv[3:])
     elif sys.argv[1] == "runall":
